@@ -212,10 +212,11 @@ func (h *ValueReader) ReadObject(data []byte) (val map[string]interface{}, p int
 	}
 	h.objVal = make(map[string]interface{}, mapSize)
 	p, err = HandleObjectValues(data[p:], h, &h.buf)
+	valLen := len(h.objVal)
+	h.lastMapSize = valLen
 	if err != nil {
 		return nil, p, err
 	}
-	valLen := len(h.objVal)
 
 	// make sure to return err for null
 	if valLen == 0 {
@@ -225,7 +226,6 @@ func (h *ValueReader) ReadObject(data []byte) (val map[string]interface{}, p int
 		}
 	}
 
-	h.lastMapSize = valLen
 	return h.objVal, p, nil
 }
 
@@ -268,11 +268,11 @@ func (h *ValueReader) ReadArray(data []byte) (val []interface{}, p int, err erro
 	}
 	h.arrVal = make([]interface{}, 0, sliceSize)
 	p, err = HandleArrayValues(data, h, &h.buf)
+	valLen := len(h.arrVal)
+	h.lastSliceSize = valLen
 	if err != nil {
 		return nil, p, err
 	}
-
-	valLen := len(h.arrVal)
 
 	// make sure to return err for null
 	if valLen == 0 {
@@ -282,7 +282,6 @@ func (h *ValueReader) ReadArray(data []byte) (val []interface{}, p int, err erro
 		}
 	}
 
-	h.lastSliceSize = valLen
 	return h.arrVal, p, err
 }
 
